@@ -119,7 +119,7 @@ theorem pl_succ (f : Nat) (ih : PAll W f) : PL W (f + 1) := by
         have ihb := ih.bv nl fn Γ Γx Λ true b Γ1 Λ1 hb { st1 with last := acc } (pos + 1 + sizeE c + 4) lp' _ below fr locs1 ops g1 accv hsc hinv1' hcb hpool
         simp only
         rcases ihb with ihb | ihb
-        · exact .inl (Fails.after (n + 1 + 1) hp ihb)
+        · exact .inl (Ovf.after (n + 1 + 1) hp ihb)
         cases hrb : evalBV f b { st1 with last := acc } with
         | val w st2 =>
           rw [hrb] at ihb
